@@ -53,6 +53,8 @@ class Rig:
         self.ebuf = b""
         self.net.handler = self.on_write
         self.ncalls_seen = 0
+        self.pbuf = b""
+        self.pcalls = 0
 
     async def connect(self):
         with self.net.patched():
@@ -81,7 +83,24 @@ class Rig:
                 self.rctr += 1
                 self.ebuf = self.ebuf[2 + n + 16:]
             data = plain
-        self.requests.append((data, ncalls))
+        # a request may (wrongly) arrive in several transport calls: collect until the HTTP message is complete and count the calls
+        self.pbuf += data
+        self.pcalls += ncalls
+        i = self.pbuf.find(b"\r\n\r\n")
+        if i < 0:
+            return
+        cl = 0
+        for h in self.pbuf[:i].split(b"\r\n")[1:]:
+            if h.lower().startswith(b"content-length:"):
+                try:
+                    cl = int(h.split(b":", 1)[1])
+                except ValueError:
+                    cl = 0
+        if len(self.pbuf) < i + 4 + cl:
+            return
+        data, self.pbuf = self.pbuf[:i + 4 + cl], self.pbuf[i + 4 + cl:]
+        self.requests.append((data, self.pcalls))
+        self.pcalls = 0
         resp = self.responder(data) if self.responder else b"HTTP/1.1 204 No Content\r\n\r\n"
         self.loop.call_soon(self.respond, t, resp)
 
@@ -282,6 +301,24 @@ def run(ctx: Ctx, driver: Driver):
             check("identify", host, secure, req, nc, "PUT", "/characteristics", "application/hap+json", req.split(b"\r\n\r\n", 1)[1])
         else:
             ctx.notes.append("identify issued no single request")
+        # camera snapshot: a JSON POST (the only one of the API)
+        n0 = len(rig.requests)
+        try:
+            await p.image(1, 640, 480)
+        except Exception as e:  # noqa: BLE001
+            ctx.notes.append(f"image() raised {type(e).__name__} after the request was written")
+        if len(rig.requests) == n0 + 1:
+            req, nc = last()
+            body = req.split(b"\r\n\r\n", 1)[1]
+            try:
+                d = json.loads(body)
+            except ValueError:
+                d = None
+            if ws_outside_strings(body) or d != {"aid": 1, "resource-type": "image", "image-width": 640, "image-height": 480}:
+                ctx.violation("request/image-payload", f"snapshot payload {body!r}", {"stream": "payload", "kind": "image"})
+            check("image", host, secure, req, nc, "POST", "/resource", "application/hap+json", body)
+        else:
+            ctx.violation("request/image/calls", f"image() issued {len(rig.requests) - n0} requests", {"stream": "request", "kind": "image"})
         await p.list_accessories_and_characteristics()
         check("list_accessories", host, secure, *last(), "GET", "/accessories", None, None)
         await p.list_pairings()
